@@ -25,6 +25,7 @@ type Ref struct {
 }
 
 type Rel struct {
+	Raw     string // if set, the renderer writes this text as the relation definition (violation injection)
 	Name    string
 	Rewrite *U
 	Restr   []Ref
@@ -59,10 +60,11 @@ type Cond struct {
 }
 
 type Model struct {
-	Schema string
-	Types  []Type
-	Conds  []Cond
-	Module string // module files: `module <name>` header instead of model/schema
+	RawHeader string // if set, written instead of the model/module header (violation injection)
+	Schema    string
+	Types     []Type
+	Conds     []Cond
+	Module    string // module files: `module <name>` header instead of model/schema
 }
 
 func This() *U            { return &U{Kind: "this"} }
